@@ -407,6 +407,17 @@ Theorem text_schema_discipline : forall (pctx : RdTextM.pctx) (rdclass rdtype : 
 Proof. exact UntrustedMsgTerm.per_type_run_le. Qed.
 Print Assumptions text_schema_discipline.
 
+(* ExceptionWrapper(SyntaxError) around a per-type text parser would turn a non-terminating loop
+   (the model's fuel marker) into a SyntaxError, so termination is stated where the marker is made:
+   the `while True` loops of Tokenizer.get_remaining and concatenate_remaining_identifiers (the only
+   loops of the per-type text parsers besides Tokenizer.get, see no_internal_tokenizer) end in every
+   tokenizer state. *)
+Theorem text_token_loops_terminate : forall st : TokM.tstate,
+  (forall max_tokens, TokM.get_remaining st max_tokens <> Internal TokM.tFuel) /\
+  (forall allow_empty, TokM.concatenate_remaining_identifiers st allow_empty <> Internal TokM.tFuel).
+Proof. exact UntrustedMsgTerm.text_loops_terminate. Qed.
+Print Assumptions text_token_loops_terminate.
+
 (* ================= non-vacuity ================= *)
 
 (* a message whose A record is one octet short: in continue_on_error mode the failure (FormError,
